@@ -12,6 +12,7 @@ def plan(tier):
         "families": [{"fam": "fastx", "trace": "FastxIOTrace", "nfiles": 4 if q else 8}],
         "required_obligations": [
             "tok_exhaustive", "line_tokens_exhaustive", "tok_long", "rt_fasta", "rt_fastq", "empty_list",
+            "writer_sink_short_writes_beyond_capacity", "writer_default_capacity_exceeded_short_sink",
             "cap1", "cap8192", "sched_all1", "sched_line_end", "wrap1", "wrap_eq_len", "wrap_len_plus1",
             "fastq_multiline", "crlf", "cut", "cut_all_offsets", "either_fasta", "either_fastq",
             "desc_with_whitespace", "qual_lead_at", "qual_lead_plus", "damaged", "arbitrary_ascii",
@@ -23,7 +24,8 @@ def plan(tier):
                 "BufReader(cap in {1,2,3,5,16,8192}) over a scripted reader (1-byte, random, line-aligned, unlimited "
                 "chunks): every string over 9 tokens up to 4 (quick) / 5 (thorough) bytes, every sequence of up to "
                 "4 / 5 lines over 8 line tokens, random token soup, valid record lists (<= 6 records, printable ASCII) "
-                "written by the real writers, re-wrapped {None,1,2,7,60,len,len+1}, CRLF, every cut offset of small "
+                "written by the real writers (also through BufWriters of capacity 1..64 / 8192 into sinks that accept only "
+                "1, 7 or 4096 bytes per write() call, with records longer than the capacity), re-wrapped {None,1,2,7,60,len,len+1}, CRLF, every cut offset of small "
                 "streams and line-end cuts of large ones, damaged valid streams, arbitrary ASCII / non-ASCII / "
                 "invalid UTF-8 bytes",
         "bounds": {"mc": "token alphabet {> @ + space CR LF A !}, all strings <= 5 (quick) / 6 (thorough) bytes through "
